@@ -272,7 +272,7 @@ pub fn execute(s: &ForScn, ctx: &mut Ctx) {
                 }
                 // C06: typed read == generic read + conversion, for every requested type
                 if n > 0 {
-                    crate::fam_rt::check_c06(ctx, s.ty, &shp, n, s.rstack);
+                    crate::fam_rt::check_c06(ctx, s.ty, &shp, n, s.rstack, &s.rplan);
                 }
             }
         }
